@@ -21,6 +21,7 @@ import (
 	"github.com/tikv/pd/server/kv"
 	"verif/checks/srvh"
 	"verif/engine/fakeetcd"
+	"verif/engine/explore"
 	"verif/engine/hist"
 )
 
@@ -419,9 +420,10 @@ func (m *model) Apply(i int) *hist.Violation {
 
 func main() {
 	defer srvh.Cleanup()
-	hist.Main(&hist.Config{
-		Property: "C14",
-		Scopes: []*hist.Scope{
+	explore.Main(&explore.Config{
+		Property:  "C14",
+		Scenarios: concScenarios(),
+		HistScopes: []*hist.Scope{
 			{Name: "2stores", Tiers: "quick", Depth: 5, NewModel: func() hist.Model { return newModel([]uint64{2, 3}, false) }},
 			{Name: "1store+faults", Tiers: "quick", Depth: 5, NewModel: func() hist.Model { return newModel([]uint64{2}, true) }},
 			{Name: "2stores@6", Tiers: "thorough", Depth: 6, NewModel: func() hist.Model { return newModel([]uint64{2, 3}, false) }},
